@@ -135,8 +135,64 @@ class Builder:
         op = self.draw(st.sampled_from([12, 13, 14, 15, 19]))
         self.emit(bytes([op]), 'schema')
 
+    def collision_pattern(self):
+        """Patterns in which one numeric id is used for an element variable, a set variable, a binder and/or a substituted
+        variable at once, or whose pending substitution re-introduces the substituted variable: the shapes where a slip in a
+        freshness / capture / shadowing rule shows."""
+        d = self.draw
+        k = d(st.sampled_from(self.cfg.ids)); j = d(st.sampled_from(self.cfg.ids))
+        f = R.Y(0)
+        templates = [
+            lambda: R.MU(k, R.E(k)),
+            lambda: R.MU(k, R.A(R.E(k), R.S(k))),
+            lambda: R.EX(k, R.S(k)),
+            lambda: R.EX(k, R.MU(k, R.A(R.S(k), R.E(k)))),
+            lambda: R.I(R.MU(k, R.E(k)), R.E(j)),
+            lambda: R.A(f, R.MU(j, R.EX(k, R.A(R.E(j), R.S(k))))),
+            lambda: R.ES(R.MV(d(st.sampled_from(self.cfg.ids))), k, R.A(f, R.E(k))),
+            lambda: R.SS(R.MV(d(st.sampled_from(self.cfg.ids))), k, R.A(f, R.S(k))),
+            lambda: R.ES(R.SS(R.MV(0), j, R.E(k)), k, R.A(f, R.E(k))),
+            lambda: R.EX(k, R.ES(R.MV(1), j, R.E(k))),
+            lambda: R.MU(k, R.SS(R.MV(1, (), (), (k,), ()), j, R.S(k))),
+            lambda: R.MV(d(st.sampled_from(self.cfg.ids)), (k,), (), (), ()),
+            lambda: R.MV(d(st.sampled_from(self.cfg.ids)), (), (k,), (j,), ()),
+            lambda: R.EX(k, R.MV(0, (j,), (), (), ())),
+        ]
+        p = d(st.sampled_from(templates))()
+        return p if R.well_formed(p) else self.pattern(2)
+
     def g_refl(self):
-        self.emit(refl_stream(self.pattern(2)), 'REFL')
+        p = self.collision_pattern() if self.draw(st.integers(0, 3)) == 0 else self.pattern(2)
+        self.emit(refl_stream(p), 'REFL')
+
+    # -- attack steps: deliberately violate a side condition *according to the documented judgements*; the documented
+    # machine rejects them (the program ends there), a checker that accepts them leaves a theorem behind to be judged
+    def g_attack_generalize(self):
+        t = self.top()
+        if not t or t[0] != 'T' or t[1][0] != 'i': return
+        bad = [x for x in self.cfg.ids if not R.e_fresh(t[1][2], x)]
+        if not bad: return
+        self.emit(bytes([22, self.draw(st.sampled_from(bad))]), 'attack-Generalization', allow_reject=True)
+
+    def g_attack_instantiate(self):
+        t = self.top()
+        if not t or len(self.m.memory) >= 250: return
+        nodes = [nd for nd in R.metavar_nodes(t[1]) if any(nd[2:6])]
+        if not nodes: return
+        nd = self.draw(st.sampled_from(sorted(nodes)))
+        cands = []
+        for x in nd[2]: cands += [R.E(x), R.MU(x, R.E(x)), R.A(R.Y(0), R.E(x)), R.ES(R.MV(2), x, R.A(R.Y(0), R.E(x)))]
+        for x in nd[3]: cands += [R.S(x), R.EX(x, R.S(x)), R.SS(R.MV(2), x, R.A(R.Y(0), R.S(x)))]
+        for x in nd[4]: cands += [R.NOT(R.S(x)), R.I(R.S(x), R.S(x))]
+        for x in nd[5]: cands += [R.S(x), R.NOT(R.NOT(R.S(x)))]
+        cands = [c for c in cands if R.well_formed(c)]
+        if not cands: return
+        plug = self.draw(st.sampled_from(cands))
+        idx = self.save_pop()
+        if idx is None: return
+        ok = self.emit(M.emit(plug) + bytes([29, idx, 26, 1, nd[1]]), 'attack-Instantiate', allow_reject=True)
+        if not ok and not self.dead:
+            self.emit(bytes([29, idx]), allow_reject=False)
 
     def g_weaken(self):
         t = self.top()
@@ -150,7 +206,7 @@ class Builder:
         t = self.top()
         if not t or t[0] != 'T': return
         ids = list(self.cfg.ids)
-        if t[1][0] == 'i' and self.draw(st.integers(0, 9)) < 7:
+        if t[1][0] == 'i' and self.draw(st.integers(0, 9)) < 5:
             ok = [x for x in ids if R.e_fresh(t[1][2], x)]
             ids = ok or ids
         self.emit(bytes([22, self.draw(st.sampled_from(ids))]), 'Generalization')
@@ -227,7 +283,8 @@ class Builder:
         self.emit(inst_stream([15], [(0, p)]), 'Quantifier-inst')
 
     GADGETS = ['g_push_pattern', 'g_axiom', 'g_refl', 'g_refl', 'g_weaken', 'g_generalize', 'g_generalize',
-               'g_substitution', 'g_substitution', 'g_instantiate', 'g_instantiate', 'g_mp', 'g_mp_ready', 'g_mem', 'g_quantifier_inst']
+               'g_substitution', 'g_substitution', 'g_instantiate', 'g_instantiate', 'g_mp', 'g_mp_ready', 'g_mem', 'g_quantifier_inst',
+               'g_attack_generalize', 'g_attack_generalize', 'g_attack_instantiate']
 
     def step(self):
         getattr(self, self.draw(st.sampled_from(self.GADGETS)))()
